@@ -2,7 +2,8 @@ import Bandit.Basic
 /-!
 # The nosec mini-language (`manager._parse_nosec_comment`)
 
-Hand model of `NOSEC_COMMENT.search` and `NOSEC_COMMENT_TESTS.finditer(..).group(1)`.
+Hand model of `NOSEC_COMMENT.search` and `NOSEC_COMMENT_TESTS.finditer(..).group(1)`
+(the regex sources are regenerated into `Bandit.Gen.Regexes` and pinned by `Props.C02.regex_sources_known`).
 The character classes (`\s`, `\d`, `[a-z]` under IGNORECASE) are parameters; the generated
 module `Bandit.Gen.Chars` supplies the sets the running interpreter uses.
 -/
@@ -66,18 +67,8 @@ def oneRep (s : Str) : Option (Str × Str) :=
     else if cc.isTok c then some (s.takeWhile cc.isTok, s.dropWhile cc.isTok)
     else none
 
-/-- A maximal run of repetitions; returns the *last* capture and the rest. -/
-def run (fuel : Nat) (s : Str) (last : Option Str) : Option Str × Str :=
-  match fuel with
-  | 0 => (last, s)
-  | fuel + 1 =>
-    match oneRep cc s with
-    | none => (last, s)
-    | some (cap, rest) =>
-      let rest := match rest with | ',' :: r => r | _ => rest
-      run fuel rest (some cap)
-
-/-- `finditer`: all runs, each contributing its last capture -/
+/-- `NOSEC_COMMENT_TESTS.finditer(tests)` with `(?:(B\d+|[a-z\d_]+),?)`: every repetition is a
+match of its own (optionally swallowing one following comma); other characters are skipped. -/
 def captures (fuel : Nat) (s : Str) : List Str :=
   match fuel with
   | 0 => []
@@ -85,9 +76,11 @@ def captures (fuel : Nat) (s : Str) : List Str :=
     match s with
     | [] => []
     | _ :: rest =>
-      match run cc (s.length) s none with
-      | (some cap, rest') => cap :: captures fuel rest'
-      | (none, _) => captures fuel rest
+      match oneRep cc s with
+      | some (cap, r) =>
+        let r := match r with | ',' :: r' => r' | _ => r
+        cap :: captures fuel r
+      | none => captures fuel rest
 
 /-- `_parse_nosec_comment`: `none` = no nosec comment; `some []` = bare nosec;
 `some ids` = the named tests (as a list; consumers treat it as a set). -/
